@@ -17,7 +17,7 @@ fn any_msg_type() -> Type {
 //           serial = c if c != 0 else 1          (the call consumes one ticket, two iff the first is 0)
 //           SERIAL_NUM' = serial + 1 (mod 2^32)  (so the next call draws a strictly later ticket)
 //           frame: the other header fields are exactly the arguments / constants
-// @unit C15.primary_header_new props=C15 kind=complete fn=zbus::message::header::PrimaryHeader::new timeout=300
+// @unit C15.primary_header_new props=C15 kind=complete fn=zbus::message::header::PrimaryHeader::new timeout=600
 #[cfg(not(verif_skip_c15_primary_header_new__complete))]
 #[cfg(kani)]
 #[kani::proof]
@@ -40,7 +40,7 @@ fn c15_primary_header_new__complete() {
 // Step relation used by the no-repeat lemma (DESIGN §4 C15): from ANY counter state two consecutive
 // calls return s1 and s2 with s2 = s1 + 1, except across the wrap where s1 = u32::MAX and s2 = 1.
 // Hence serials of consecutive calls are strictly increasing until the counter wraps.
-// @unit C15.consecutive_calls props=C15 kind=complete fn=zbus::message::header::PrimaryHeader::new timeout=300
+// @unit C15.consecutive_calls props=C15 kind=complete fn=zbus::message::header::PrimaryHeader::new timeout=600
 #[cfg(not(verif_skip_c15_consecutive_calls__complete))]
 #[cfg(kani)]
 #[kani::proof]
@@ -104,7 +104,7 @@ fn stub_compare_exchange(a: &std::sync::atomic::AtomicU32, cur: u32, new: u32, _
     interfere(a);
     unsafe { let p = a.as_ptr(); let old = *p; if old == cur { *p = new; Ok(old) } else { Err(old) } }
 }
-// @unit C15.interference props=C15 kind=bounded bound=up-to-2-foreign-calls-before-each-atomic-step fn=zbus::message::header::PrimaryHeader::new timeout=600
+// @unit C15.interference props=C15 kind=bounded bound=up-to-2-foreign-calls-before-each-atomic-step fn=zbus::message::header::PrimaryHeader::new timeout=1200
 #[cfg(not(verif_skip_c15_interference__f2))]
 #[cfg(kani)]
 #[kani::proof]
@@ -130,7 +130,7 @@ fn c15_interference__f2() {
     kani::cover!(n >= 1 && c == u32::MAX, "cover.interference_at_wrap");
 }
 
-// @unit CANARY.zbus props=CANARY kind=complete expect=fail timeout=300
+// @unit CANARY.zbus props=CANARY kind=complete expect=fail timeout=600
 #[cfg(not(verif_skip_canary_zbus_must_fail))]
 #[cfg(kani)]
 #[kani::proof]
@@ -148,7 +148,7 @@ type VErr = serde::de::value::Error;
 
 // contract deserialize_flags(b):  ensures Ok(flags) for EVERY byte, flags.bits() = b & 0b111
 // (known bits preserved exactly, unknown bits ignored -- never a parse error)
-// @unit C13.flags_decode props=C13 kind=complete fn=zbus::message::header::deserialize_flags timeout=300
+// @unit C13.flags_decode props=C13 kind=complete fn=zbus::message::header::deserialize_flags timeout=600
 #[cfg(not(verif_skip_c13_flags_decode__complete))]
 #[cfg(kani)]
 #[kani::proof]
@@ -166,7 +166,7 @@ fn c13_flags_decode__complete() {
 }
 
 // known message types decode to their variants; an unknown type code must not be a parse error
-// @unit C13.type_decode props=C13 kind=complete fn=<zbus::message::Type.as.serde::Deserialize>::deserialize timeout=300
+// @unit C13.type_decode props=C13 kind=complete fn=<zbus::message::Type.as.serde::Deserialize>::deserialize timeout=600
 #[cfg(not(verif_skip_c13_type_decode__complete))]
 #[cfg(kani)]
 #[kani::proof]
@@ -191,7 +191,7 @@ fn c13_type_decode__complete() {
 // field codes: 1..=9 map to their variants; every code >= 10 must decode (to the variant that
 // FieldsVisitor::visit_seq ignores) -- never an error.  Code 0 is INVALID in the specification and is
 // left unconstrained.
-// @unit C13.field_code_decode props=C13 kind=complete fn=<zbus::message::FieldCode.as.serde::Deserialize>::deserialize timeout=300
+// @unit C13.field_code_decode props=C13 kind=complete fn=<zbus::message::FieldCode.as.serde::Deserialize>::deserialize timeout=600
 #[cfg(not(verif_skip_c13_field_code_decode__complete))]
 #[cfg(kani)]
 #[kani::proof]
@@ -219,7 +219,7 @@ fn c13_field_code_decode__complete() {
 //   ensures  Ok(h) whenever endian ∈ {'B','l'}, type ∈ 1..=4, serial != 0 and the byte-sized words fit a byte
 //            -- in particular for EVERY flags byte (unknown flag bits never make the header unparsable)
 //            Ok(h) ==> h carries exactly the decoded words (flags masked to the known bits)
-// @unit C13.primary_header_decode props=C13 kind=complete fn=<zbus::message::PrimaryHeader.as.serde::Deserialize>::deserialize,zbus::message::header::deserialize_flags timeout=600
+// @unit C13.primary_header_decode props=C13 kind=complete fn=<zbus::message::PrimaryHeader.as.serde::Deserialize>::deserialize,zbus::message::header::deserialize_flags timeout=1200
 #[cfg(not(verif_skip_c13_primary_header_decode__complete))]
 #[cfg(kani)]
 #[kani::proof]
@@ -266,7 +266,7 @@ fn stub_read_from_data(_data: &serialized::Data<'_, '_>) -> Result<(PrimaryHeade
     unsafe { DECODER_REACHED = true; }
     Err(Error::InvalidField)
 }
-// @unit C12.primary_header_read.empty props=C12 kind=complete fn=zbus::message::header::PrimaryHeader::read timeout=600
+// @unit C12.primary_header_read.empty props=C12 kind=complete fn=zbus::message::header::PrimaryHeader::read timeout=1200
 #[cfg(not(verif_skip_c12_primary_header_read__empty))]
 #[cfg(kani)]
 #[kani::proof]
@@ -281,7 +281,7 @@ fn c12_primary_header_read__empty() {
     obl!("C12.primary_header_read.empty_buffer_is_an_error", is_err);
 }
 
-// @unit C12.from_raw_parts.empty props=C12 kind=complete fn=zbus::message::Message::from_raw_parts timeout=600
+// @unit C12.from_raw_parts.empty props=C12 kind=complete fn=zbus::message::Message::from_raw_parts timeout=1200
 #[cfg(not(verif_skip_c12_from_raw_parts__empty))]
 #[cfg(kani)]
 #[kani::proof]
@@ -305,7 +305,7 @@ fn c12_from_raw_parts__empty() {
 // requires  that invariant; ANY declared body length in the primary header (it is peer-supplied and never checked
 //           against the buffer), any buffer of <= 16 bytes
 // ensures   body() does not panic and yields exactly the bytes from body_offset to the end of the buffer
-// @unit C12.body.slice props=C12 kind=bounded bound=buffer<=16 fn=zbus::message::Message::body timeout=900
+// @unit C12.body.slice props=C12 kind=bounded bound=buffer<=16 fn=zbus::message::Message::body timeout=1800
 #[cfg(not(verif_skip_c12_body_slice__n16))]
 #[cfg(kani)]
 #[kani::proof]
